@@ -22,8 +22,9 @@
 //! testsuite/end_to_end, corpus/fun), /repo/testsuite/** (the fail_* files parse as well), corpus/fmt,
 //! corpus/fmt-neg, the extra directories; the enumerated family "every term form in every operand
 //! position" (bare and parenthesised; the texts that do not parse are negative cases for the model
-//! parser); `n` random programs of the type-directed generator gen_fun (configuration mix, `-0`
-//! switched on in a third of them).
+//! parser; the positions include comparisons whose first operand is followed by a comment, the only
+//! way to write a general comparison whose first operand ends in the literal 0); `n` random programs
+//! of the type-directed generator gen_fun (configuration mix, `-0` switched on in a third of them).
 //! Configurations: widths {1,2,5,10,20,40,80,100,200} + 3 random in 1..=200, indents {0,1,2,4,8},
 //! allow_linebreaks = true, omit_decl_sep = false (what `scc fmt` uses), plus the default of
 //! `print_to_string(None)` (width 100, indent 4, allow_linebreaks = false) and one omit_decl_sep.
@@ -134,6 +135,8 @@ const FORMS: &[&str] = &[
     "if x == -0 + 1 { 1 } else { 2 }", "if x + -0 == 1 { 1 } else { 2 }", "if 0 == x + -0 { 1 } else { 2 }",
     "if x == // c\n 0 { 1 } else { 2 }", "if x - 0 // c\n == y { 1 } else { 2 }", "if x == -0.head { 1 } else { 2 }",
     "if x != (0) { 1 } else { 2 }", "if (0) < x { 1 } else { 2 }", "if f(0) == 0 { 1 } else { 2 }",
+    "if 0 // c\n >= -0 { 1 } else { 2 }", "if 0 <= exit -0 { 1 } else { 2 }", "if x >= -0.case { } { 1 } else { 2 }",
+    "if let z: i64 = 1; 0 // c\n > 0 { 1 } else { 2 }", "if 0 != print_i64(x); -0 { 1 } else { 2 }",
     // print, let
     "print_i64(x); y", "println_i64(x); y", "let z: i64 = x; z", "let z: List[i64] = Nil; x",
     "let z: Fun[i64, List[Pair[i64, i64]]] = s; z",
@@ -153,6 +156,9 @@ const POSITIONS: &[&str] = &[
     "f(@)", "f(1, @, 2)", "Cons(@, Nil)", "@.head", "s.get(@)", "s.get[i64](1, @)", "@.case { Nil => 0 }",
     "l.case { Nil => @, Cons(a, b) => 1 }", "l.case { Cons(a, b) => @ }", "new { head => @ }",
     "new { head => @, tail => 1 }", "label k { @ }", "goto k (@)", "exit @", "(@)",
+    // a comment keeps the last token of the first operand and the operator apart (the only way to write a
+    // general comparison whose first operand ends in the literal 0); second operand with a leading 0
+    "if @ // c\n < 1 { 1 } else { 2 }", "if @ // c\n != -0 * 2 { 1 } else { 2 }", "if 0 > @ { 1 } else { 2 }",
 ];
 fn mini_programs() -> Vec<(String, String)> {
     let mut out = Vec::new();
